@@ -26,7 +26,11 @@ def _mk_marginal(R, diag, all_coords):
         if not all_coords and not diag:
             L_cc = sub(xp, par["L"], sc, sc)
             LM.principal_submatrix_logdet(w, S_aa, par["ld"], L_cc)
+        from .common import fresh_result, params_unchanged, snapshot as _snap
+        sp_ = _snap(p)
         m = p.get_marginal(sa)                                           # REAL
+        fresh_result(w, "frame/result-is-a-new-object", m, p)
+        params_unchanged(w, "frame/operand-unchanged", p, sp_, ("Sigma", "mu", "Lambda", "nu", "ln_beta", "ln_det_Sigma", "lnZ"))
         w.equal("value/mu", m.mu, sub(xp, par["mu"], sa))
         w.equal("value/Sigma", m.Sigma, S_aa)
         wf_measure(w, "result", m, is_pdf=True)
